@@ -382,6 +382,44 @@ Proof.
       clear - Hin E. induction syms as [|[k0 v0] s IHs]; [destruct Hin|]. cbn [sym_find map fst In] in *.
       destruct (text_eqb (spell n) k0) eqn:Eq; [discriminate E|]. destruct Hin as [Hin|Hin]; [subst k0; rewrite text_eqb_refl in Eq; discriminate Eq|apply IHs; assumption].
 Qed.
+(* without an END line the scan runs through: the continuation receives the symbols *)
+Lemma r2_scan_value org its0 es : renders_doc2 spell org its0 es -> Forall (fun xk => labs_shape (fst xk)) es ->
+  forall syms, NoDup (map fst syms ++ map spell (map fst (equs its0))) ->
+  exists m, forall K, scan_spec (flat_map elem_plines es) syms K = K m.
+Proof.
+  induction 1 as [|org l its1 t k es [_ [Hop _]] _ IH|org c k its1 es _ _ IH|e kw cmt k its1 es Hkw _ _ IH|org n e labs kw cmt k its1 es Hl Hkw _ _ IH];
+    intros Hsh syms Hnd; [exists syms; reflexivity| | | |]; inversion Hsh as [|a b Hs1 Hs2]; subst; cbn [fst] in Hs1.
+  - destruct (IH Hs2 syms Hnd) as [m Hm]. exists m. intros K.
+    cbn [flat_map]; rewrite scan_spec_app; unfold elem_plines; cbn [fst snd scan_spec]; unfold line_result.
+    destruct (optext_tok _ _ _ Hop) as [O1 [O2 O3]].
+    assert (Ek : forall w, is_kw (pl_first (mkPL (group_acc None (tl_labs t)) (snd (line_rest (LInstr t))))) w = false).
+    { intros w. unfold is_kw, pl_first. cbn [line_rest snd pl_rest app hd]. rewrite O3. rewrite andb_false_r. reflexivity. }
+    rewrite !Ek. rewrite scan_spec_empty. apply Hm.
+  - destruct (IH Hs2 syms Hnd) as [m Hm]. exists m. intros K.
+    cbn [flat_map]; rewrite scan_spec_app; unfold elem_plines; cbn [fst snd scan_spec]; unfold line_result.
+    cbn [line_rest fst snd group_acc]. unfold is_kw, pl_first. cbn [pl_rest app hd t_typ ttype_eqb andb]. rewrite scan_spec_empty. apply Hm.
+  - destruct (IH Hs2 syms Hnd) as [m Hm]. exists m. intros K.
+    cbn [flat_map]; rewrite scan_spec_app; unfold elem_plines; cbn [fst snd scan_spec]; unfold line_result.
+    destruct (dir_kw_facts kw "org" (or_introl eq_refl) Hkw) as [_ [_ [K1 [_ K3]]]]. cbn in K3.
+    cbn [line_rest fst snd group_acc]. unfold is_kw, pl_first. cbn [pl_rest app hd t_typ t_val]. rewrite K1, K3. rewrite !andb_false_r. rewrite scan_spec_empty. apply Hm.
+  - destruct (equ_kw_facts kw Hkw) as [_ [K2 [_ [K4 _]]]].
+    cbn [equs map fst] in Hnd.
+    assert (Hfresh : sym_has (spell n) syms = false).
+    { unfold sym_has. destruct (sym_find (spell n) syms) as [v|] eqn:E; [|reflexivity]. exfalso.
+      apply sym_find_in in E. apply NoDup_remove_2 in Hnd. apply Hnd. apply in_or_app. left. exact E. }
+    assert (Hnotin : ~ In (spell n) (map fst syms)).
+    { unfold sym_has in Hfresh. intros Hin. destruct (sym_find (spell n) syms) eqn:E; [discriminate Hfresh|].
+      clear - Hin E. induction syms as [|[k0 v0] s IHs]; [destruct Hin|]. cbn [sym_find map fst In] in *.
+      destruct (text_eqb (spell n) k0) eqn:Eq; [discriminate E|]. destruct Hin as [Hin|Hin]; [subst k0; rewrite text_eqb_refl in Eq; discriminate Eq|apply IHs; assumption]. }
+    destruct (IH Hs2 (syms ++ [(spell n, equ_value (mkPL (group_acc None labs) (mkT tokText kw :: etoks spell e ++ cmt_toks cmt)))])) as [m Hm].
+    { rewrite map_app. cbn [map fst]. rewrite <- app_assoc. cbn [app]. exact Hnd. }
+    exists m. intros K.
+    cbn [flat_map]; rewrite scan_spec_app; unfold elem_plines; cbn [fst snd scan_spec]; unfold line_result.
+    cbn [line_rest fst snd]. unfold is_kw, pl_first. cbn [pl_rest pl_labels app hd t_typ t_val]. rewrite K2, K4. cbn [ttype_eqb andb].
+    replace (ttype_eqb tokText tokText) with true by reflexivity. cbn [andb].
+    rewrite group_names. cbn [app]. rewrite Hl. cbn [define_all].
+    rewrite Hfresh. rewrite scan_spec_empty. rewrite (sym_set_fresh (spell n)) by exact Hnotin. apply Hm.
+Qed.
 End EquGlue2.
 
 Section EquGlue3.
